@@ -765,6 +765,68 @@ func init() {
 			w.Close()
 		}
 		r.Set("uploads_from_failing_readers", failedReaders)
+		// a suspended upload, a second stream that cannot resume it (another chunk size) and is aborted: the abort of a
+		// stream that never held the upload leaves no chunks without a marker behind, and the upload can still be
+		// resumed by a stream that fits and completed
+		var failedResumes int64
+		for _, cs2 := range []int32{5, 3, 4} {
+			w := world.New()
+			b := c18Bucket(w, true)
+			content := []byte("0123456789")
+			st, err := b.OpenUploadStreamWithID(w.Ctx, "x", "x", options.GridFSUpload().SetChunkSizeBytes(4))
+			if err != nil {
+				r.Broken("open: %v", err)
+				w.Close()
+				continue
+			}
+			st.VerifSetBufferSize(4)
+			_, _ = st.Write(content)
+			if _, err := st.Suspend(); err != nil {
+				r.Broken("suspend: %v", err)
+			}
+			count := func(c lungo.ICollection) int64 { n, _ := c.CountDocuments(w.Ctx, bD()); return n }
+			chunksBefore := count(b.GetChunksCollection(w.Ctx))
+			st2, err := b.OpenUploadStreamWithID(w.Ctx, "x", "x", options.GridFSUpload().SetChunkSizeBytes(cs2))
+			if err != nil {
+				r.Broken("open 2: %v", err)
+				w.Close()
+				continue
+			}
+			_, rerr := st2.Resume()
+			aerr := st2.Abort()
+			failedResumes++
+			chunks, markers := count(b.GetChunksCollection(w.Ctx)), count(b.GetMarkersCollection(w.Ctx))
+			what := fmt.Sprintf("upload of 10 bytes with chunk size 4 suspended (%d chunks stored); second stream with chunk size %d: Resume -> %v, Abort -> %v; afterwards %d chunk(s) and %d marker(s)", chunksBefore, cs2, rerr, aerr, chunks, markers)
+			rep := map[string]interface{}{"second_chunk_size": cs2}
+			switch {
+			case chunks > 0 && markers == 0:
+				r.Violation("abort-after-failed-resume-orphans-chunks", what+": the chunks belong to nothing any more (no marker, no file record; Cleanup cannot find them)", rep)
+			case rerr == nil && (chunks > 0 || markers > 0):
+				r.Violation("abort-leaves-data", what+": the aborted stream had resumed the upload", rep)
+			case rerr != nil && markers == 1:
+				// the upload is still there: a stream that fits completes it
+				st3, err := b.OpenUploadStreamWithID(w.Ctx, "x", "x", options.GridFSUpload().SetChunkSizeBytes(4))
+				if err == nil {
+					st3.VerifSetBufferSize(4)
+					n, err3 := st3.Resume()
+					if err3 != nil {
+						r.Violation("upload-not-resumable-after-failed-resume", what+fmt.Sprintf("; a third stream with chunk size 4 cannot resume: %v", err3), rep)
+					} else {
+						_, _ = st3.Write(content[n:])
+						var buf bytes.Buffer
+						if cerr := st3.Close(); cerr != nil {
+							r.Violation("upload-not-resumable-after-failed-resume", what+fmt.Sprintf("; the third stream resumed at %d and fails to close: %v", n, cerr), rep)
+						} else if clerr := b.ClaimUpload(w.Ctx, "x"); clerr != nil {
+							r.Violation("upload-not-resumable-after-failed-resume", what+fmt.Sprintf("; the third stream resumed at %d and completed, the upload cannot be claimed: %v", n, clerr), rep)
+						} else if _, derr := b.DownloadToStream(w.Ctx, "x", &buf); derr != nil || !bytes.Equal(buf.Bytes(), content) {
+							r.Violation("resumed-upload-differs", what+fmt.Sprintf("; resumed at %d and completed, the download is %q (%v)", n, buf.Bytes(), derr), rep)
+						}
+					}
+				}
+			}
+			w.Close()
+		}
+		r.Set("aborts_after_a_failed_resume", failedResumes)
 		// several uploads under one name: a download by name picks the revision asked for (0, 1, ... from the oldest,
 		// -1, -2, ... from the newest; the default is the newest)
 		{
